@@ -59,7 +59,7 @@ PROPS = {
     "C04": {"targets": [V3 + ".__init__", V3 + ".data_received", V3 + ".read"], "level": "proof"},
     "C05": {"targets": [V3 + "._encode_encrypted_request", V3 + "._decode_encrypted_response", V3 + "._process_packet",
                         V3 + "._process_packet#interop", V3 + ".write"], "level": "proof"},
-    "C06": {"targets": [V3 + "._process_packet", V3 + ".read", V3 + "._encode_handshake_request", V3 + "._get_local_key", V3 + "._get_local_key#genuine", V3 + ".authenticate",
+    "C06": {"targets": [LANC + ".authenticate#hex_credentials", V3 + "._process_packet", V3 + ".read", V3 + "._encode_handshake_request", V3 + "._get_local_key", V3 + "._get_local_key#genuine", V3 + ".authenticate",
                         LANM + "_LanProtocol._flush", V3 + ".write", LANC + ".authenticate", DEVB + ".authenticate"], "level": "proof"},
     "C07": {"targets": [V3 + ".__init__", LANM + "_LanProtocol.__init__", V3 + ".write", LANM + "_LanProtocol.write", V3 + ".authenticate", V3 + ".authenticated", LANM + "_LanProtocol.alive",
                         LANC + "._alive", LANC + "._connect", LANC + "._disconnect", LANC + ".authenticate", LANC + ".send"], "level": "proof"},
@@ -69,7 +69,8 @@ PROPS = {
     "C09": {"targets": [LANM + "_Packet.decode", V3 + "._process_packet", V3 + "._decode_encrypted_response", V3 + "._get_local_key",
                         V3 + ".read", LANM + "_LanProtocol.read", LANC + "._read", LANC + "._read_available", LANC + ".send",
                         LANC + ".authenticate", DEVB + "._send_command#transport", DEVB + ".authenticate"], "level": "proof"},
-    "C10": {"targets": [CMD + "SetStateCommand.__init__", CMD + "SetStateCommand.tobytes", CMD + "Command.tobytes",
+    "C10": {"targets": [AC + ".beep!setter", AC + ".power_state!setter", AC + ".fahrenheit!setter", AC + ".target_temperature!setter", AC + ".operational_mode!setter", AC + ".swing_mode!setter", AC + ".eco!setter", AC + ".turbo!setter", AC + ".freeze_protection!setter", AC + ".sleep!setter", AC + ".follow_me!setter", AC + ".purifier!setter", AC + ".target_humidity!setter", AC + ".aux_mode!setter", AC + ".fan_speed!setter",
+                        CMD + "SetStateCommand.__init__", CMD + "SetStateCommand.tobytes", CMD + "Command.tobytes",
                         CMD + "Command._next_message_id", "msmart.frame.Frame.tobytes", "msmart.frame.Frame.checksum",
                         "msmart.crc8.calculate", "crc8.table", "crc8.step_range",
                         (AC + ".apply", r"c10\.|control_first|noraise|call\.")],
